@@ -109,7 +109,7 @@ def run_conc(prop, tier, seed, jobs_spec, own_guards, mc, builds=("rel", "dbg"),
                 continue
             out = os.path.join(od, "t_%s_%s_%s_%d.ndjson" % (js["prog"], js["strategy"], b, k))
             cmd = [exes[b], "--out", out, "--prog", js["prog"], "--seed", str(seed * 1000003 + k * 1009), "--runs", str(js["runs"][q]),
-                   "--strategy", js["strategy"]] + list(js.get("args", [])) + ([] if js["prog"] in NO_STEPS else ["--steps", "1"])
+                   "--strategy", js["strategy"]] + list(js.get("args", [])) + ([] if js["prog"] in NO_STEPS else ["--steps", "1"]) + ["--segs", "1"]
             traces.append((out, b, js, "%s.%s" % (js["prog"], js["strategy"])))
             jobs.append((lambda cmd=cmd, env=js.get("env"): vlib.sh(cmd, timeout=1500, env=env)))
             k += 1
@@ -133,6 +133,7 @@ def run_conc(prop, tier, seed, jobs_spec, own_guards, mc, builds=("rel", "dbg"),
     vlib.check_complete(V, prop, res, traces, what=lambda t: t[3])
     log("  ran %d scheduled executions (%d driver processes) in %.1fs" % (nexec, len(jobs), time.time() - t0))
 
+    segcov = vlib.seg_pass(V, prop, [t[0] for t in traces], tag=prop + "conc")
     # the step events go to their own trace (StepTrace.tla), everything else to ApiTrace; long traces are split at reset lines so
     # that the TLC jobs stay balanced
     pieces, spieces, nstep_events = [], [], 0
@@ -208,6 +209,7 @@ def run_conc(prop, tier, seed, jobs_spec, own_guards, mc, builds=("rel", "dbg"),
            "schedules_generated_by_tlc": len(scheds), "driver_processes": len(jobs), "builds": list(builds),
            "programs": sorted({t[2]["prog"] for t in traces}), "strategies": sorted({t[2]["strategy"] for t in traces}),
            "decisive_guards": sorted(own_guards), "atomic_steps_validated": nstep_events, "step_guards": sorted(step_guards), "samples": (scheds[:2] + vlib.sample_lines(traces[0][0], 3) + steps[:2]), "exhaustive": False}
+    cov.update(segcov)
     if extra_cov:
         cov.update(extra_cov)
     if not finish:
